@@ -437,8 +437,61 @@ def _patches():
     return clipcommon.store_patches(st)
 
 
+def body_larger(ctx, kind, check='values'):
+    """Concrete clips of datasets beyond the sizes of the symbolic cases: a tall grid clipped near row 255 / 256 with one
+    and two neighbour rings, a ring of 65,540 triangles (node numbers beyond 16 bits) clipped across its seam."""
+    import shapely
+    from harness import geomref
+    if kind == 'tall-grid':
+        ny, nx = 260, 4
+        buffer = 1 + int(ctx.int('rings', 0, 1))
+        vals = numpy.arange(ny * nx, dtype=float).reshape(ny, nx)
+        ds = builders.cf1d(ny, nx, lat=numpy.linspace(-40.0, -14.1, ny), lon=numpy.array([150.0, 150.1, 150.2, 150.3]), data_vars={'cell': (('y', 'x'), vals)})
+        cv = ds.ems
+        ref = geomref.check(ctx, ds, cv)
+        target = ref[255 * nx + 1].representative_point().buffer(0.001)
+        with clipcommon.work_dir(ctx) as wd:
+            out = cv.clip(target, wd, buffer=buffer).load()
+        rows = list(range(255 - buffer, 255 + buffer + 1))
+        cols = list(range(max(0, 1 - buffer), min(nx, 1 + buffer + 1)))
+        got = out['cell'].values
+        ctx.check(got.shape == (len(rows), len(cols)) and bool(numpy.array_equal(got, vals[numpy.ix_(rows, cols)])),
+                  'face: every selected cell is still present, with its value (tall grid, clip near row 255)')
+        ctx.check(len(out.ems.polygons) == len(rows) * len(cols) and all(p.symmetric_difference(ref[j * nx + i]).area <= 1e-12 for p, (j, i) in zip(out.ems.polygons, [(j, i) for j in rows for i in cols])),
+                  'each selected cell has exactly its original polygon')
+    else:
+        n = 65540 // 2
+        # a closed ring: inner nodes 0..n-1, outer nodes n..2n-1, two triangles per sector
+        ang = numpy.linspace(0.0, 2 * numpy.pi, n, endpoint=False)
+        nodes = [(10.0 * numpy.cos(a), 10.0 * numpy.sin(a)) for a in ang] + [(11.0 * numpy.cos(a), 11.0 * numpy.sin(a)) for a in ang]
+        faces = []
+        for k in range(n):
+            k2 = (k + 1) % n
+            faces.append([k, n + k, n + k2])
+            faces.append([k, n + k2, k2])
+        edata = None
+        ds = builders.ugrid((nodes, faces), fill='none', supply=('edge_node',))
+        ne = ds.sizes['nedge']
+        ds['flux'] = (('nedge',), numpy.arange(ne, dtype=float))
+        ds['eta'] = (('nface',), numpy.arange(len(faces), dtype=float))
+        from emsarray.conventions.ugrid import UGrid
+        cv = UGrid(ds)
+        seam = [len(faces) - 2, len(faces) - 1, 0, 1]
+        polys = cv.polygons
+        target = shapely.unary_union([polys[f].representative_point().buffer(1e-6) for f in seam])
+        with clipcommon.work_dir(ctx) as wd:
+            out = cv.clip(target, wd).load()
+        ctx.check(sorted(float(v) for v in out['eta'].values) == sorted(float(f) for f in seam), 'nface: exactly the selected elements remain, in their original relative order')
+        en = numpy.asarray(ds['edge_node'].values, dtype=int)
+        pairs = {frozenset(p) for f in seam for p in zip(faces[f], faces[f][1:] + faces[f][:1])}
+        keep = [e for e in range(ne) if frozenset(int(x) for x in en[e]) in pairs]
+        ctx.check([float(v) for v in out['flux'].values] == [float(e) for e in keep], 'nedge: exactly the selected elements remain, in their original relative order')
+
+
 def cases(tier, check='values'):
     q = tier == 'quick'
+    for kind in ('tall-grid', 'ring-65540'):
+        yield Case(f'{check}:larger:{kind}', body_larger, dict(kind=kind, check=check), patches=_patches, max_paths=4)
     grids = [('cf1d', (2, 3), True), ('cf2d', (2, 2), True), ('shoc_simple', (2, 2), False), ('shoc_standard', (2, 2), True)]
     if not q:
         grids += [('cf1d', (3, 3), False), ('cf2d', (3, 2), False), ('shoc_standard', (2, 3), False), ('cf2d', (3, 3), True)]
